@@ -154,6 +154,19 @@ func (p *C12) Generate(seed uint64, run int) *Case {
 		add("sched", func(st *Step) { st.SchedPolicy = "rtb-high" })
 		add("sched", func(st *Step) { st.SchedPolicy = model.Pick(r, schedPolicies[2:]) })
 	}
+	if b.Class == "text" || len(b.Input) > 8000 || r.Chance(1, 4) {
+		// pre-emption between any two statements (unsynchronised code of two
+		// goroutines interleaves freely), under several CPU counts
+		add("sched:preempt", func(st *Step) {
+			st.SchedPolicy = "random"
+			st.PreemptEvery = model.Pick(r, []int{2, 5, 17, 61})
+		})
+		add("sched:preempt", func(st *Step) {
+			st.SchedPolicy = model.Pick(r, schedPolicies)
+			st.PreemptEvery = model.Pick(r, []int{3, 11, 29})
+			st.CPUs = model.Pick(r, []int{2, 3, 4, 8, 16})
+		})
+	}
 	if r.Chance(1, 2) {
 		add("maporder+sched", func(st *Step) {
 			st.MapPolicy = "shuffle"
@@ -424,6 +437,8 @@ func dimOf(note string) string {
 		return "maporder"
 	case strings.HasPrefix(note, "delivery"):
 		return "delivery"
+	case strings.HasPrefix(note, "sched"):
+		return "sched"
 	case strings.HasPrefix(note, "history"):
 		return "history"
 	}
